@@ -48,3 +48,7 @@
 (declare-fun rvSliceOp (Int Int Int) Int)        ; reflect.Value.Slice(i, j)
 (declare-fun rvSlice3Op (Int Int Int Int) Int)   ; reflect.Value.Slice3(i, j, k)
 (declare-fun arrayOf (Int Int) Int)              ; what genValueArray(node) yields in a frame (A2)
+(declare-fun rtConvertibleTo (Int Int) Bool)   ; reflect.Type.ConvertibleTo
+(declare-fun rtAssignableTo (Int Int) Bool)    ; reflect.Type.AssignableTo
+(declare-fun rtComparable (Int) Bool)          ; reflect.Type.Comparable
+(declare-fun fIsInf (Int) Bool)   ; math.IsInf(f, 0) on a float value
